@@ -170,6 +170,10 @@ def gen_content(rng, rich, tag):
 
 def gen_case(st, tier, flavour):
     rp, rf, rk = st.prog, st.fault, st.knob
+    if flavour == "C06" and st.sched.random() < (0.012 if tier == "thorough" else 0.006):
+        # the import state of the process is a dimension too: collect() entered in a fresh interpreter (W2c)
+        from worlds import w2_cold
+        return w2_cold.gen_cold(st)
     rich = flavour == "C11"
     case = {"w": "w2", "flavour": flavour, "root_mode": "tree" if rk.random() < 0.8 else "slash",
             "sibling": rp.choice(["root2", "rootX", "root_backup", "root.old"]),
@@ -1327,6 +1331,9 @@ def relayout_phase(case, env, c, Ctx, rps, impls, stats):
 
 
 def run_case(case, flavour):
+    if case.get("cold"):
+        from worlds import w2_cold
+        return w2_cold.run_cold(case)
     stats = {"faults_fired": {}, "probes": {}}
     env = Env(case)
     viols = []
@@ -1385,6 +1392,12 @@ def run_case(case, flavour):
 
 
 def shrink(case):
+    if case.get("cold"):
+        from worlds import w2_cold
+        for c in w2_cold.shrink_cold(case):
+            yield c
+        return
+
     def cp():
         return json.loads(json.dumps(case))
     n = len(case["specs"])
@@ -1459,7 +1472,7 @@ COMMON_REAL = {
     "host commands": "stub: SimHostContext(HostContext).check_output answers from a generated table; which() consults the table",
     "clock of dr / serde": "SimClock",
     "I/O monitor and fault injector": "sys.addaudithook (open, mkdir, rename, symlink, remove, Popen) + spec_factory.open / serde.open wrappers for torn writes",
-    "insights.collect.collect() itself": "mirrored line by line (lines 217-267) on the generated spec set; not called, because its manifest loads the shipped host specs which read the sandbox's /",
+    "insights.collect.collect() itself": "real in 25% of the cases (manifest naming the simulated context and the generated spec package) and in the cold-process cases (fresh interpreter, shipped DefaultSpecs, HostContext with patched command entry points); mirrored line by line (lines 217-267) otherwise",
 }
 
 
@@ -1475,7 +1488,11 @@ class C06(Check):
             "component names drawn from what the spec set touches, in 25% mixed with symbolic DefaultSpecs names at any position, "
             "bare command names denied under files: and commands: at once; "
             "in 15% a layout history: after the collection a directory the specs read from becomes a link leaving the root and "
-            "the SAME context object evaluates the spec set again; oracle = (a) no FileProvider whose real location is outside "
+            "the SAME context object evaluates the spec set again; 0.6% (thorough 1.2%) cold-process cases (W2c): the real collect() "
+            "entered in a fresh child interpreter that has or has not imported insights.specs.default before, 1-5 shipped "
+            "DefaultSpecs (simple commands / files) enabled on a recording HostContext, deny list of symbolic names (under files: "
+            "or commands:), literal paths / commands / command prefixes and component names, with a positive control (what "
+            "nothing denies is collected); oracle = (a) no FileProvider whose real location is outside "
             "the root, (b) no open / Popen / executed command matching the deny list, (c) every write-open, mkdir, rename, "
             "symlink and cp destination between persister registration and the return of run_all resolves beneath the output "
             "directory + before/after walk of the scratch area; non-trivial = >= 2 specs; distinct = digest of (results, I/O events, "
